@@ -23,7 +23,23 @@ EntSh(s, h) == IF h \in Slots THEN s.exp[h].sh
                ELSE IF IsMonH(h) /\ (h - 100) \in Mons THEN s.mon[h - 100].nq ELSE -1
 EntNPar(s, h) == IF h \in Slots THEN Len(s.exp[h].pt) ELSE 0
 
+\* a report whose wording the normaliser does not know is judged by content only (the properties constrain content)
+SetOf(s) == {s[i] : i \in 1..Len(s)}
+RepOkByContent(pre, x, g) ==
+  LET named == SetOf(g.mentions) \cup {g.locent} IN
+  /\ g.r = pre.rep
+  /\ g.sev = x.sev
+  /\ g.textok = 1
+  /\ CASE x.kind = "nomatch" -> SetOf(x.args) \subseteq SetOf(g.ints) /\ SetOf(x.lst) \subseteq SetOf(g.mentions)
+       [] x.kind = "forbidden" -> x.ent \in named /\ SetOf(x.args) \subseteq SetOf(g.ints)
+       [] x.kind = "seqmismatch" -> IF x.entset # {} THEN named \cap x.entset # {} ELSE x.ent \in named
+       [] x.kind \in {"unfulfilled", "pending", "stillalive"} -> g.locent = x.ent
+       [] x.kind = "unexpected_death" -> g.locent = 0
+       [] x.kind = "seq_teardown" -> SetOf(x.lst) \subseteq SetOf(g.mentions)
+       [] OTHER -> FALSE
+
 RepOk(pre, x, g) ==
+  IF g.kind = "other" THEN RepOkByContent(pre, x, g) ELSE
   /\ g.r = pre.rep
   /\ g.sev = x.sev
   /\ g.kind = x.kind
